@@ -101,6 +101,15 @@ CHECKS = {
                  "separator built-ins, spans handed to actions), and the routes must agree with spans stripped.",
         "note": "Trusted: TLC, the tagging of Python results (harness/stage_act.tagval), the recording actions. Bounded: small grammars with <= 3 nonterminals, sentences <= 9 tokens.",
     },
+    "C13": {
+        "engine": "tlc-trace", "design_ref": "DESIGN.md 3.9 Desugar, 7 C13",
+        "technique": "Desugar.tla (documented expansion) + CFG.tla sentencehood over the expansion + Actions.tla documented built-in meaning vs recorded productions, acceptance and per-tree results of sugared grammars (SugarCheck.tla), TLC",
+        "level": "For every explored sugared grammar: real productions equal the documented expansion (group/greedy-free grammars), the accepted language equals that of the expansion "
+                 "on all explored inputs, every forest tree's result equals the documented meaning (lists, empty list, None, separators dropped, groups as anonymous rules), greedy variants "
+                 "keep the language, stay within the non-greedy results and, on pattern grammars, yield the single maximal tree.",
+        "note": "Trusted: TLC, result tagging. Known findings: greedy repetition is possessive (language shrinks when the follower needs the same token); greedy lost when the same base "
+                "symbol is also used non-greedy (shared helper rule). Imported grammars with sugar are covered by C20's corpus only incidentally.",
+    },
     "C18": {
         "engine": "tlc-trace", "design_ref": "DESIGN.md 3.4, 3.5 (FilterCall), 7 C18",
         "technique": "FilterCheck.tla: recorded filter call logs vs marks and returned trees (FilterInitOnce, FilterOnlyMarked, AcceptedTaken, RejectedNotTaken, AcceptAll = NoFilter, RejectP = NoFilter minus p); Prec.tla for precedence-encoding filters, TLC",
